@@ -142,6 +142,11 @@ type Kernel struct {
 	aborting bool
 	Fail     *Failure
 
+	// TickNs: nanoseconds the clock read by instrumented code moves with every
+	// reading (0: it stands still between scheduler sleeps); see xtime.Now
+	TickNs int64
+	ticks  int64
+
 	timers   []*Timer
 	timerSeq int
 	stops    []time.Time
@@ -173,6 +178,15 @@ var cur atomic.Pointer[Kernel]
 //
 //go:norace
 func Cur() *Kernel { return cur.Load() }
+
+// Tick counts one more clock reading and returns the offset to add to it.
+// Only the running task reads the clock (one task runs at a time).
+//
+//go:norace
+func (k *Kernel) Tick() int64 {
+	k.ticks += k.TickNs
+	return k.ticks
+}
 
 // New creates a kernel; Install makes it the kernel the vsync wrappers talk to.
 //
